@@ -273,6 +273,19 @@ def run(project, chk):
                           f"{a.id} passed as variables is a fresh dict created inside the per-file loop body",
                           how=f"{len(in_loop)} definition(s), all inside `for {norm_text(floop.target)} in {norm_text(floop.iter)}`",
                           message=f"custom-property table {a.id} is allocated outside the per-file loop: definitions leak from one stylesheet into the next")
+    # P8: position in a bulk list
+    chk.rule("P8", "make_readable_bulk: an entry's result does not depend on its position: no value defined while processing one entry is read while processing a later one")
+    from checks._loops import carried_definitions
+    bulk = project.func("cm_colors.core.cm_colors.make_readable_bulk")
+    chk.saw_function(bulk)
+    car = carried_definitions(bulk)
+    if car is None:
+        raise AnalysisError("make_readable_bulk: loop over the pairs parameter not found")
+    for node, name, d in car:
+        chk.fail("P8", bulk.short, norm_text(d.ast if d.kind != "bind" else d.ast.target), project.loc(bulk.module, d.ast),
+                 f"{name} defined at line {d.lineno} while processing one entry is read at line {node.lineno} while processing a later one: the result depends on the entry's position in the list")
+    if not car:
+        chk.ok("P8", f"{project.loc(bulk.module, bulk.node)} {bulk.short}", "no definition made for one entry reaches a read for a later entry", "reaching definitions tagged across the back edge of the entry loop")
     # mutable default table of process_nodes_recursive must be the None-sentinel idiom
     chk.floor("functions analysed", len(chk.analysed["functions"]), 60)
 
